@@ -22,7 +22,7 @@ P = {
                  "C18_fs_F2_pinned_refuted", "C18_fs_F4_pinned_refuted", "C18_fs_nonvacuous",
                  "C18_blob_all_histories", "C18_blob_all_histories_pinned", "C18_blob_stored_hash",
                  "C18_blob_F1_pinned_refuted", "C18_blob_F5_refuted", "C18_blob_F6_refuted",
-                 "C18_k8s_all_histories", "C18_k8s_converges"],
+                 "C18_k8s_all_histories", "C18_k8s_converges", "C18_k8s_F7_refuted", "C18_k8s_F8_refuted"],
     "streams": [{
         "name": "fs", "pkg": "./internal/rules/provider/filesystem", "test": "TestVerifC18Fs",
         "overlay": dict(_COMMON, **{"internal/rules/provider/filesystem/zz_verif_c18_test.go": "c18/fs_test.go"}),
@@ -34,6 +34,11 @@ P = {
                                     "internal/rules/provider/filesystem/zz_verif_c18_export.go": "c18/fs_export.go"}),
         "eval_module": "Run.Eval_C18", "check_term": "check_fsr " + _B("F2"),
         "n_quick": 300, "n_thorough": 8000, "findings": {},
+    }, {
+        "name": "fswatch", "pkg": "./internal/rules/provider/filesystem", "test": "TestVerifC18FsWatch",
+        "overlay": dict(_COMMON, **{"internal/rules/provider/filesystem/zz_verif_c18w_test.go": "c18/fswatch_test.go"}),
+        "eval_module": "Run.Eval_C18", "check_term": "check_fsw",
+        "n_quick": 100, "n_thorough": 1500, "findings": {},
     }, {
         "name": "http", "pkg": "./internal/rules/provider/httpendpoint", "test": "TestVerifC18HTTP",
         "overlay": dict(_COMMON, **{"internal/rules/provider/httpendpoint/zz_verif_c18_test.go": "c18/http_test.go"}),
@@ -47,8 +52,8 @@ P = {
     }, {
         "name": "k8s", "pkg": "./internal/rules/provider/kubernetes", "test": "TestVerifC18K8s",
         "overlay": dict(_COMMON, **{"internal/rules/provider/kubernetes/zz_verif_c18_test.go": "c18/k8s_test.go"}),
-        "eval_module": "Run.Eval_C18", "check_term": "check_k8s",
-        "n_quick": 300, "n_thorough": 8000, "findings": {},
+        "eval_module": "Run.Eval_C18", "check_term": "check_k8s " + _B("F7") + " " + _B("F8"),
+        "n_quick": 300, "n_thorough": 6000, "findings": {7: "C18-F7", 8: "C18-F8"},
     }],
     "rule": "five streams of generated histories (1-30 events over 1-3 sources each), every one through the REAL event entry points, "
             "corpus (witnesses of C18-F1/F2/F4/F5/F6 + corpus/C18/*.json) first: "
